@@ -2,5 +2,8 @@
 # usage: try_seed.sh <ID> <patch.diff> [tier]  — apply to /repo, run the check, revert; never commits
 id=$1; patch=$2; tier=${3:-quick}
 git -C /repo apply "$patch" || exit 2
-python3 /verif/tools/check.py $id --tier $tier 2>&1 | grep -v "^WARNING" | cut -c1-260 | tail -8
+python3 /verif/tools/check.py $id --tier $tier > /tmp/try_seed.$$ 2>&1
+grep -E "^VIOLATION|^KNOWN-FINDING" /tmp/try_seed.$$ | cut -c1-260
+grep -v "^WARNING\|^VIOLATION\|^KNOWN-FINDING" /tmp/try_seed.$$ | cut -c1-260 | tail -6
+rm -f /tmp/try_seed.$$
 git -C /repo checkout -- .
